@@ -25,16 +25,16 @@ def run(prog, rep):
     fams = families(prog, include_generic=True)
     for fam in fams:
         if fam.generic:
-            generic(prog, rep, fam)
+            rep.part(generic, prog, rep, fam)
             continue
-        ctor(prog, rep, fam)
+        rep.part(ctor, prog, rep, fam)
         mi = MleInfo(prog, fam)
         rep.analysed(mi.fn)
-        mle(prog, rep, fam, mi)
-        unmap(prog, rep, fam, mi)
-    lsq(prog, rep)
-    cond(prog, rep)
-    writers(prog, rep, fams)
+        rep.part(mle, prog, rep, fam, mi)
+        rep.part(unmap, prog, rep, fam, mi)
+    rep.part(lsq, prog, rep)
+    rep.part(cond, prog, rep)
+    rep.part(writers, prog, rep, fams)
     rep.expect_min("C11.ctor", 17)
     rep.expect_min("C11.mle", 17)
     rep.expect_min("C11.unmap", 15)
